@@ -163,8 +163,17 @@ class RefKey:
         return ref_b58check(prefix + hash160(self.pub))
 
 
+FORCED_HMAC = {}      # set by the forced-HMAC cases only: the model's HMAC oracle then answers with the chosen bytes
+
+
+def hmac512_oracle(key, msg):
+    if 'value' in FORCED_HMAC:
+        return FORCED_HMAC['value']
+    return hmac512(key, msg)
+
+
 ORACLES = {
-    'dsha': dsha, 'hmac512': hmac512, 'hash160': hash160,
+    'dsha': dsha, 'hmac512': hmac512_oracle, 'hash160': hash160,
     'pub': ec_pub, 'pub_add': ec_pub_add, 'pub_valid': ec_pub_valid,
 }
 
@@ -538,8 +547,8 @@ def do_forced(run, model, case):
     left, right = bytes.fromhex(case['L']), bytes.fromhex(case['R'])
     n, depth = case['n'], case['depth']
     run.case(case, nontrivial=True)
-    forced = lambda key, msg: left + right
-    fmodel = vlib.Model('C06', oracles=dict(ORACLES, hmac512=forced))
+    fmodel = model
+    FORCED_HMAC['value'] = left + right
     try:
         def mk(cls, keybytes):
             k = cls(led, keybytes, cc, 0, depth)
@@ -553,7 +562,7 @@ def do_forced(run, model, case):
         mpriv = fmodel.call('ckd_priv', k=mk_priv, i=n)
         mpub = fmodel.call('ckd_pub', k=mk_pub, i=n)
     finally:
-        fmodel.close()
+        FORCED_HMAC.clear()
     run.count('forced:priv:' + ('ok' if 'ok' in priv else priv['err']))
     run.count('forced:pub:' + ('ok' if 'ok' in pub else pub['err']))
     bad = None
@@ -611,6 +620,21 @@ def do_account(run, model, case):
                         await ledger.db.set_address_history(pk.address, 'ab:1:' * op[3])
                         returns.append(None)
                     snapshots.append([await rows(0), await rows(1)])
+                # a second wallet restored from the exported key string only (fresh database, no usage history)
+                restored = []
+                ledger2 = LEDGERS[lname]({'db': Database(os.path.join(tmp, 'w2.db')), 'headers': Headers(':memory:')})
+                await ledger2.db.open()
+                try:
+                    d = acc.to_dict()
+                    src = {'public_key': d['public_key']} if len(case['ops']) % 2 else {'private_key': d['private_key']}
+                    acc2 = Account.from_dict(ledger2, Wallet(), dict(src, address_generator=case.get('generator', {})))
+                    for c, am in ((0, acc2.receiving), (1, acc2.change)):
+                        am.gap = len(await rows(c))
+                        await am.ensure_address_gap()
+                        rs = await am._query_addresses(order_by='n asc')
+                        restored.append([r['address'] for r in rs])
+                finally:
+                    await ledger2.db.close()
                 signing = []
                 for c in (0, 1):
                     rs = await rows(c)
@@ -618,7 +642,7 @@ def do_account(run, model, case):
                         signing.append([c, r['n'], r['addr'], chains[c].get_private_key(r['n']).address,
                                         chains[c].get_public_key(r['n']).address])
                 out = {'xpub': acc.public_key.extended_key_string(), 'acct': key_obs(acc.public_key),
-                       'signing': signing,
+                       'signing': signing, 'restored': restored,
                        'snapshots': snapshots, 'returns': returns,
                        'records': [await chains[c].get_addresses() for c in (0, 1)],
                        'max_gap': [await chains[c].get_max_gap() for c in (0, 1)],
@@ -682,6 +706,10 @@ def do_account(run, model, case):
             if ret != fresh:
                 bad = f'account.ensure_address_gap returned {ret} but added {fresh}'
         prev = snap
+    if not bad and impl['snapshots']:
+        for c in (0, 1):
+            if impl['restored'][c] != [r['addr'] for r in impl['snapshots'][-1][c]]:
+                bad = f'chain {c}: a wallet restored from the exported key lists different addresses / order'
     for c, n, addr, via_priv, via_pub in impl['signing']:
         if not bad and not (addr == via_priv == via_pub):
             bad = f'chain {c} index {n}: listed address {addr}, private-key route {via_priv}, public-key route {via_pub}'
@@ -945,7 +973,7 @@ def gen_bytes(rng, lo, hi):
 
 def gen_b58(rng, n):
     for _ in range(n):
-        yield {'op': 'b58enc', 'b': gen_bytes(rng, 0, rng.choice([1, 2, 4, 8, 21, 25, 33, 78, 82, 90])).hex()}
+        yield {'op': 'b58enc', 'b': gen_bytes(rng, 0 if rng.random() < 0.02 else 1, rng.choice([1, 2, 4, 8, 21, 25, 33, 78, 82, 90])).hex()}
     alpha = B58 * 6 + '0OIl+/= \n-_' + 'éあ'
     for _ in range(n):
         k = rng.randint(0, rng.choice([1, 3, 8, 34, 60, 111]))
@@ -960,14 +988,16 @@ def gen_b58(rng, n):
 
 
 def gen_b58check(rng, n, full_every):
+    fulls_done = 0
     for j in range(n):
-        ln = rng.choice([0, 1, 2, 3, 4, 5, 21, 21, 21, 34, 78, 78])
+        ln = rng.choice([0, 1, 2, 4, 21, 21, 21, 21, 25, 34, 38, 78, 78, 78])
         p = gen_bytes(rng, ln, ln)
         if rng.random() < 0.7 and p:
             p = bytes([rng.choice([0x55, 0x7a, 0x6f, 0xc4, 0x04, 0x1c, 1, 255])]) + p[1:]
         enc_len = len(ref_b58check(p)) if p else 8
         corrupt = []
-        if j % full_every == 0:
+        if 0 < ln <= 25 and fulls_done <= j // full_every:
+            fulls_done += 1
             # every position, every other character
             corrupt = [['sub', pos, ch] for pos in range(enc_len) for ch in B58]
         else:
@@ -1151,13 +1181,14 @@ def gen_mn(rng, n, exhaustive_small):
         if name.startswith('syn'):
             for i in range(exhaustive_small):
                 yield {'op': 'mn', 'words': name, 'i': str(i)}
-    for _ in range(n):
-        name = rng.choice(names)
+    # grouped by word list (switching the model's list is the expensive part)
+    for j in range(n):
+        name = names[j * len(names) // n]
         bits = rng.choice([8, 16, 33, 64, 128, 132, 143, 256, 300])
         yield {'op': 'mn', 'words': name, 'i': str(rng.getrandbits(bits))}
     seps = [' ', ' ', ' ', '  ', '\t', '\n', ' \r\n', '\x0b', '\x0c', '\x1c', '\x1f', '\x1d ']
-    for _ in range(n):
-        name = rng.choice(names)
+    for j in range(n):
+        name = names[j * len(names) // n]
         ws = wordlist(name)
         toks = [rng.choice(ws) if rng.random() < 0.7 else rng.choice([ws[0], ws[-1], ws[1]]) for _ in range(rng.randint(0, 14))]
         c = rng.random()
@@ -1239,19 +1270,36 @@ def main(run):
     for name in WORDLISTS:
         check_case(run, model, {'op': 'wordlists', 'words': name})
     n = vlib.scaled(run.tier, 1, 12)
-    for case in gen_b58(rng, 400 * n):
+    # exhaustive small scopes: every byte string of length <= 1 (quick) / <= 2 (thorough), every text of
+    # length <= 1 (quick) / <= 2 (thorough) over the alphabet plus five outsiders
+    for b in [b''] + [bytes([x]) for x in range(256)]:
+        check_case(run, model, {'op': 'b58enc', 'b': b.hex()})
+    small_alpha = B58 + '0OIl '
+    for ch in small_alpha:
+        check_case(run, model, {'op': 'b58dec', 't': ch})
+    if not q:
+        for x in range(256):
+            for y in range(256):
+                check_case(run, model, {'op': 'b58enc', 'b': bytes([x, y]).hex()})
+        for c1 in small_alpha:
+            for c2 in small_alpha:
+                check_case(run, model, {'op': 'b58dec', 't': c1 + c2})
+        run.exhaustive = True
+        run.notes.append('exhaustive: Base58.encode on every byte string of length <= 2, Base58.decode on every text of '
+                         'length <= 2 over the alphabet + "0OIl "; mnemonic integers 0..2999 for synthetic lists of 2,3,5,10 words')
+    for case in gen_b58(rng, 600 * n):
         check_case(run, model, case)
     for case in gen_b58check(rng, 60 * n, 30 if q else 10):
         check_case(run, model, case)
-    for case in gen_xparse(rng, 300 * n):
+    for case in gen_xparse(rng, 500 * n):
         check_case(run, model, case)
-    for case in gen_derive(rng, 110 * n):
+    for case in gen_derive(rng, 140 * n):
         check_case(run, model, case)
-    for case in gen_forced(rng, 60 * n):
+    for case in gen_forced(rng, 200 * n):
         check_case(run, model, case)
     for case in gen_scalar(rng, 150 * n):
         check_case(run, model, case)
-    for case in gen_account(rng, 24 * n):
+    for case in gen_account(rng, 28 * n):
         check_case(run, model, case)
     english = wordlist('english')
     for _ in range(3 * n):
